@@ -156,7 +156,7 @@ CHECKS = {
     ),
     "C10": dict(
         technique="Lean 4 proof (refinement: SignalWriter = canon of the callback sequence, by induction over all callback sequences; expand_entries = rewrite under the wider kind, writer entry = loader entry layout; case analysis over all kind triples and width residues) + exhaustive state-order differential + whole FST files written from abstract designs + corpus VCD/FST pairs",
-        text="Lean theorem C10_writer_refines_canon (Proofs/FstRefine.lean): for EVERY sequence of callbacks (time index, value characters) of a bit-vector signal of width >= 2 - every order of 2-, 4- and 9-state values, any repetitions - the model of SignalWriter::add_change (widening through expand_entries, entry layout, byte-wise de-duplication) ends with exactly the changes the specification's canon keeps, each stored as the loader's entry of its symbols under the widest kind that occurred; C10_writer_canonical (what the writer keeps has no two consecutive changes with the same value: C06 for FST sources), C10_writer_strings_reals (string and real signals: the writer keeps exactly canon of the callback sequence, stored verbatim), C10_expand_for_every_value (expand_entries is the identity on meaning for every value), C10_cursor_first (the time-index cursor of load_signals). Further: C10_expand_is_rewrite (an entry written under a narrower maximum, once widened, is byte for byte the entry written under the wider kind: order independence of 2/4/9-state values), "
+        text="Lean theorem C10_writer_refines_canon (Proofs/FstRefine.lean): for EVERY sequence of callbacks (time index, value characters) of a bit-vector signal of width >= 2 - every order of 2-, 4- and 9-state values, any repetitions - the model of SignalWriter::add_change (widening through expand_entries, entry layout, byte-wise de-duplication) ends with exactly the changes the specification's canon keeps, each stored as the loader's entry of its symbols under the widest kind that occurred; C10_writer_canonical (what the writer keeps has no two consecutive changes with the same value: C06 for FST sources), C10_writer_strings_reals (string and real signals: the writer keeps exactly canon of the callback sequence, stored verbatim), C10_expand_for_every_value (expand_entries is the identity on meaning for every value), C10_cursor_first (the time-index cursor of load_signals), C10_dup_chain (time table of files whose blocks repeat boundary times: model = specification = the file's own chain). Further: C10_expand_is_rewrite (an entry written under a narrower maximum, once widened, is byte for byte the entry written under the wider kind: order independence of 2/4/9-state values), "
              "C10_writer_uses_entry_layout, C10_writer_entry (entry round trip), C10_timescale (for every exponent -15..0 the reported factor x unit is the file's tick). The real SignalWriter (hook) is driven with every sequence of value kinds of length <= 4 at widths 1..24 and random histories "
              "(release and debug-assertion builds) against the Lean model and canon of the callback history; every corpus x.vcd / x.vcd.fst pair is loaded through both paths and compared variable by variable.",
         design_ref="DESIGN.md section 5 / C10",
